@@ -26,6 +26,7 @@ COLMAX = 14
 
 
 def build(spec):
+    """blocks get the same start_line / raw, so two blocks with equal symbolic content compare equal (Block.__eq__)"""
     blocks = []
     i = 0
     for b in spec:
@@ -35,11 +36,11 @@ def build(spec):
         elif kd == "S":
             blocks.append(M.String(b[1], b[2], i, "raw"))
         elif kd == "P":
-            blocks.append(M.Preamble(b[1], i, "raw"))
+            blocks.append(M.Preamble(b[1], 0, "raw"))
         elif kd == "X":
-            blocks.append(M.ExplicitComment(b[1], i, "raw"))
+            blocks.append(M.ExplicitComment(b[1], 0, "raw"))
         elif kd == "I":
-            blocks.append(M.ImplicitComment(b[1], i, "raw"))
+            blocks.append(M.ImplicitComment(b[1], 0, "raw"))
         elif kd == "F":
             blocks.append(M.ParsingFailedBlock(Exception("e"), i, b[1]))
         elif kd == "D":
@@ -49,7 +50,7 @@ def build(spec):
     return blocks
 
 
-def drv(spec, indent, sep, trailing, column, custom):
+def drv(spec, indent, sep, trailing, column, custom, column2=None):
     lib = Library(build(spec))
     fmt = BibtexFormat()
     fmt.indent = indent
@@ -60,7 +61,13 @@ def drv(spec, indent, sep, trailing, column, custom):
         fmt.parsing_failed_comment = custom
     before = dict(fmt.__dict__)
     out = WR.write(lib, fmt)
-    return out, before, dict(fmt.__dict__), len(lib.blocks)
+    after = dict(fmt.__dict__)
+    out2 = None
+    if column2 is not None:
+        # the same format object, reconfigured, must give the text of a fresh format with that setting
+        fmt.value_column = column2
+        out2 = WR.write(lib, fmt)
+    return out, before, after, len(lib.blocks), out2
 
 
 # ------------------------------------------------------------------ oracle
@@ -119,18 +126,22 @@ def auto_col(spec):
     return m + 3
 
 
-def replay(spec, indent, sep, trailing, column, custom):
+def replay(spec, indent, sep, trailing, column, custom, column2=None):
     import logging
     logging.disable(logging.CRITICAL)
     try:
-        out, before, after, nb = drv(spec, indent, sep, trailing, column, custom)
+        out, before, after, nb, out2 = drv(spec, indent, sep, trailing, column, custom, column2)
     except Exception as ex:  # noqa
         return {"input": [spec, indent, sep, trailing, column, custom], "observed": f"raised {type(ex).__name__}: {ex}", "expected": "text"}
     col = auto_col(spec) if column == "auto" else column
     exp = [t for c, t in render(spec, indent, sep, trailing, col, custom) if c is True]
-    if len(exp) == 1 and out == exp[0] and before == after:
+    ok2 = True
+    if column2 is not None:
+        exp2 = [t for c, t in render(spec, indent, sep, trailing, column2, custom) if c is True]
+        ok2 = len(exp2) == 1 and out2 == exp2[0]
+    if len(exp) == 1 and out == exp[0] and before == after and ok2:
         return None
-    return {"input": [spec, indent, sep, trailing, column, custom], "observed": {"text": out, "format_changed": before != after},
+    return {"input": [spec, indent, sep, trailing, column, custom, column2], "observed": {"text": out, "second_text": out2, "format_changed": before != after},
             "expected": exp[0] if exp else "?"}
 
 
@@ -151,7 +162,7 @@ def mk_spec(eng, shape):
     return spec
 
 
-def task(shape, column_kind, custom, seplen, indlen):
+def task(shape, column_kind, custom, seplen, indlen, column2=None):
     eng = Engine()
     rec = Recorder(eng)
     spec = mk_spec(eng, shape)
@@ -160,14 +171,14 @@ def task(shape, column_kind, custom, seplen, indlen):
     trailing = eng.sym_bool("trailing")
     column = "auto" if column_kind == "auto" else eng.sym_int("col", 0, COLMAX)
     E = eng.I.models.eq_simple
-    worlds = eng.run(drv, [spec, indent, sep, trailing, column, custom])
+    worlds = eng.run(drv, [spec, indent, sep, trailing, column, custom, column2])
     mv = lambda m, x: eng.model_value(m, x)
     for W in worlds:
-        rp = lambda m: replay(mv(m, [list(b) if False else b for b in spec]), mv(m, indent), mv(m, sep), mv(m, trailing), mv(m, column), custom)
+        rp = lambda m: replay(mv(m, [list(b) if False else b for b in spec]), mv(m, indent), mv(m, sep), mv(m, trailing), mv(m, column), custom, column2)
         if W.exc is not None:
             rec.require(W, True, "no-exception", rp)
             continue
-        out, before, after, nb = W.result
+        out, before, after, nb, out2 = W.result
         same_fmt = set(before) == set(after) and b_all(E(before[k], after[k]) for k in before)
         rec.require(W, b_not(same_fmt), "format-unchanged", rp)
         cols = [auto_col(spec)] if column == "auto" else list(range(0, COLMAX + 1))
@@ -181,6 +192,13 @@ def task(shape, column_kind, custom, seplen, indlen):
                 for cond, exp in render(spec, indent, sep, tv, col, custom):
                     good = is_strlike(out) and E(out, exp)
                     rec.require(W, b_all([ccol, ct, cond, b_not(good)]), "text-as-specified", rp)
+        if column2 is not None:
+            for tv in (True, False):
+                ct = SBool(trailing.e) if tv else SBool(z3not(trailing.e))
+                for cond, exp in render(spec, indent, sep, tv, column2, custom):
+                    good = is_strlike(out2) and E(out2, exp)
+                    rec.require(W, b_all([ct, cond, b_not(good)]), "second-write-with-changed-column", rp)
+            rec.witness("format-reused", W)
         if any(sh[0] in "FD" for sh in shape):
             rec.witness("failed-block-rendered", W)
     if worlds and not rec.samples and worlds[0].exc is None:
@@ -214,7 +232,15 @@ def main():
     chk.bounds = {"libraries": f"{len(shapes)} shapes (entries with 0..3 fields and key lengths 1..4, string, preamble, both comments, failed and duplicate blocks; singles, all pairs" + (", triples" if chk.tier == "thorough" else "") + ")",
                   "format": f"value_column symbolic 0..{COLMAX} or 'auto'; trailing_comma symbolic; indent 0..2 symbolic chars over blank/tab/'z'; separator 0..2 symbolic chars over newline/blank/'-'; default and custom parsing_failed_comment"}
     chk.assumptions = ["keys/values/texts contain no newline except failed-block raws (statement: 'own line')", "string/preamble/comment renderings are the writer's documented forms (@string{k = v}, @preamble{v}, @comment{c}, free text + newline)"]
-    chk.expected_vacuity = ["failed-block-rendered"]
+    chk.expected_vacuity = ["failed-block-rendered", "format-reused"]
+    # equal blocks (same content, same line) and a format object reused with another column
+    for shape in ([("X",), ("X",)], [("I",), ("X",), ("I",)], [("P",), ("P",)], [("X",), ("E", (1,)), ("X",)]):
+        name = "+".join(s[0] for s in shape)
+        chk.add_task(f"equal-{name}", task, shape=shape, column_kind="int", custom=None, seplen=2, indlen=1)
+    for shape in ([("E", (1, 2))], [("E", (3,)), ("S",)], [("E", (2, 4, 1))]):
+        name = "+".join(s[0] + "".join(map(str, s[1])) if s[0] == "E" else s[0] for s in shape)
+        for c2 in (0, 5, 9):
+            chk.add_task(f"reuse-{name}-then{c2}", task, shape=shape, column_kind="int", custom=None, seplen=1, indlen=1, column2=c2)
     for si, shape in enumerate(shapes):
         has_failed = any(s[0] in "FD" for s in shape)
         for ck in ("int", "auto"):
